@@ -100,7 +100,7 @@ func (r *Run) classifyMapLoop(l *mapLoop) (class, arg string) {
 	effects := 0
 	var why []string
 	bad := func(s string) { why = append(why, s) }
-	keyDep := func(v ssa.Value) bool { return l.key != nil && dependsOn(v, l.key) }
+	keyDep := func(v ssa.Value) bool { return l.key != nil && dependsOnThroughMem(v, l.key) }
 	for b := range l.blocks {
 		for _, ins := range b.Instrs {
 			switch x := ins.(type) {
